@@ -19,6 +19,7 @@ type ModelOpt struct {
 	Hazards    bool // plant cycle hazards (C05)
 	Conditions bool // conditioned / duplicated restrictions (C10)
 	Wildcards  int  // weight of wildcard restrictions out of 6 (default 1)
+	Shapes     bool // plant only the VALID tricky shapes of the hazard catalogue (C04, C10, C11)
 	PureCycles bool // bias towards cycles of pure computed relations (C17)
 	FreeThis   bool // allow several `this` under one operator (C02 style); never used for graph properties
 }
@@ -146,7 +147,9 @@ func Model(r *rand.Rand, opt ModelOpt) *openfgav1.AuthorizationModel {
 		m.TypeDefinitions = append(m.TypeDefinitions, td)
 	}
 	if opt.Hazards && r.Intn(2) == 0 {
-		g.plant(m, terms, objs, relNames)
+		g.plant(m, terms, objs, relNames, r.Intn(16))
+	} else if opt.Shapes && r.Intn(4) == 0 {
+		g.plant(m, terms, objs, relNames, 12+r.Intn(4))
 	}
 	if opt.PureCycles && r.Intn(3) == 0 && len(relNames) >= 2 {
 		// a cycle of pure computed relations of length 2..len
@@ -253,7 +256,7 @@ func (g *mgen) userset(depth int, rels []string, hasThis *bool, self string) *op
 }
 
 // plant rewrites one or two relations of one object type with a cycle hazard.
-func (g *mgen) plant(m *openfgav1.AuthorizationModel, terms, objs, rels []string) {
+func (g *mgen) plant(m *openfgav1.AuthorizationModel, terms, objs, rels []string, which int) {
 	r := g.r
 	td := m.TypeDefinitions[len(terms)+r.Intn(len(objs))]
 	o := td.GetType()
@@ -265,7 +268,7 @@ func (g *mgen) plant(m *openfgav1.AuthorizationModel, terms, objs, rels []string
 		td.Metadata.Relations[rel] = &openfgav1.RelationMetadata{DirectlyRelatedUserTypes: refs}
 	}
 	u1 := terms[len(terms)-1]
-	switch r.Intn(16) {
+	switch which {
 	case 12: // VALID: intersection whose TTU operand fans out to parent types reaching different user types
 		if len(objs) >= 2 {
 			o2 := objs[(r.Intn(len(objs)-1)+1+indexOf(objs, o))%len(objs)]
